@@ -603,7 +603,8 @@ func c01R5(c *Ctx) {
 			c.Check(K(f.Name, "success update"), s.Send.Pos(), ok, "a successful request reports exactly the queried peer as queried", "update fields: "+short(s.Send.Value))
 		}
 	}
-	c.Check(K(f.Name, "failure updates"), f.Pos(), nfail == 2 && nok == 1, "dial failure, request failure and success each send their update", "found "+itoa(nfail)+" failure and "+itoa(nok)+" success updates")
+	// (that a failing run sends a failure update follows from: exactly one update per run, and the success update needs a nil error)
+	c.Check(K(f.Name, "failure updates"), f.Pos(), nfail >= 1 && nok == 1, "failure and success each send their own update", "found "+itoa(nfail)+" failure and "+itoa(nok)+" success updates")
 	// exactly one update per run
 	var sl []eng.Loc
 	for _, s := range f.SendsOn(ch) {
